@@ -95,11 +95,15 @@ class GeometryMixin:
         file_dict = {
             "sensors names": sens_names,
             "sensors coordinates": sens_coord,
-            "sensors directions": sens_dir,
-            "sensors lines": sens_lines if sens_lines is not None else pd.DataFrame(),
-            "BG nodes": bg_nodes if bg_nodes is not None else pd.DataFrame(),
-            "BG lines": bg_lines if bg_lines is not None else pd.DataFrame(),
-            "BG surfaces": bg_surf if bg_surf is not None else pd.DataFrame(),
+            "sensors directions": sens_dir
+            if isinstance(sens_dir, pd.DataFrame)
+            else pd.DataFrame(
+                sens_dir, index=sens_coord.index, columns=sens_coord.columns
+            ),
+            "sensors lines": pd.DataFrame(sens_lines),
+            "BG nodes": pd.DataFrame(bg_nodes),
+            "BG lines": pd.DataFrame(bg_lines),
+            "BG surfaces": pd.DataFrame(bg_surf),
         }
 
         # check on input
@@ -178,11 +182,11 @@ class GeometryMixin:
             "mapping": sens_map,
             "constraints": cstr if cstr is not None else pd.DataFrame(),
             "sensors sign": sens_sign if sens_sign is not None else pd.DataFrame(),
-            "sensors lines": sens_lines if sens_lines is not None else pd.DataFrame(),
-            "sensors surfaces": sens_surf if sens_surf is not None else pd.DataFrame(),
-            "BG nodes": bg_nodes if bg_nodes is not None else pd.DataFrame(),
-            "BG lines": bg_lines if bg_lines is not None else pd.DataFrame(),
-            "BG surfaces": bg_surf if bg_surf is not None else pd.DataFrame(),
+            "sensors lines": pd.DataFrame(sens_lines),
+            "sensors surfaces": pd.DataFrame(sens_surf),
+            "BG nodes": pd.DataFrame(bg_nodes),
+            "BG lines": pd.DataFrame(bg_lines),
+            "BG surfaces": pd.DataFrame(bg_surf),
         }
 
         # check on input
